@@ -21,14 +21,23 @@ mkdir -p "$HERE/evidence/.parts" "$HERE/replays"
 rm -f "$HERE/evidence/$ID.json" "$HERE/evidence/.parts/$ID".*.json
 final=0
 parts=()
+# build every needed feature set first, in parallel (separate target directories; a lock
+# serialises concurrent builds of the same one)
+pids=()
 for b in ${builds//,/ }; do
   feat=""; [ "$b" = full ] && feat="--features full"
-  # (a lock serialises concurrent builds of the same target directory)
-  if ! ( cd "$MC" && flock "$MC/.lock-$b" env CARGO_TARGET_DIR="$MC/target-$b" cargo build --release --offline $feat ) > "$HERE/evidence/.parts/$ID.$b.build.log" 2>&1; then
+  ( cd "$MC" && flock "$MC/.lock-$b" env CARGO_TARGET_DIR="$MC/target-$b" cargo build --release --offline $feat ) > "$HERE/evidence/.parts/$ID.$b.build.log" 2>&1 &
+  pids+=("$!:$b")
+done
+for pb in "${pids[@]}"; do
+  if ! wait "${pb%%:*}"; then
+    b="${pb##*:}"
     echo "MACHINERY ERROR: build ($b) failed against /repo's working tree; log: $HERE/evidence/.parts/$ID.$b.build.log" >&2
     tail -n 30 "$HERE/evidence/.parts/$ID.$b.build.log" >&2
     exit 2
   fi
+done
+for b in ${builds//,/ }; do
   part="$HERE/evidence/.parts/$ID.$b.json"
   "$MC/target-$b/release/twmc" check "$ID" --tier "$TIER" --part-out "$part"
   rc=$?
